@@ -273,6 +273,10 @@ int hwloc_distances_release_remove(hwloc_topology_t topology,
     errno = EINVAL;
     return -1;
   }
+  if (topology->adopted_shmem_addr) {
+    errno = EPERM;
+    return -1;
+  }
   if (dist->prev)
     dist->prev->next = dist->next;
   else
